@@ -98,6 +98,9 @@ func c11Echo(frame []byte) ([]byte, bool) {
 	return nil, false
 }
 
+// c11Comp, when set, is the embedder-supplied compare function of the shims built next (nil = the default).
+var c11Comp func(x, y ssh.PublicKey) bool
+
 func newC11World(noUp, locked bool) *c11World {
 	vsync.ResetIDs()
 	vtime.Set(c11T0)
@@ -111,7 +114,7 @@ func newC11World(noUp, locked bool) *c11World {
 	w.addr = fmt.Sprintf("/verif/c11-ua-%d", c11Seq)
 	w.ua.Listen(w.addr)
 	var err error
-	w.shim, err = shimagent.New(shimagent.Option{Address: w.addr, NoUpstream: noUp})
+	w.shim, err = shimagent.New(shimagent.Option{Address: w.addr, NoUpstream: noUp, PubKeyComp: c11Comp})
 	if err != nil {
 		panic(err)
 	}
@@ -222,6 +225,11 @@ func c11Op(w *c11World, op string, tag int) (res string) {
 	case "Add(c2.cur)":
 		id := c11Ids["c2.cur"]
 		return e(sh.Add(agent.AddedKey{PrivateKey: id.priv, Certificate: id.cert, Comment: "c2.cur"}))
+	case "Add(c2.cur);List", "Remove(c.cur);List", "Add(c2.cur);Signers":
+		// one client doing two operations in a row: the second one sees the first (read-your-writes); as a unit its
+		// results equal those of one of the sequential orders whatever the other thread does in between
+		parts := strings.SplitN(op, ";", 2)
+		return c11Op(w, parts[0], tag) + ";" + c11Op(w, parts[1], tag)
 	case "Remove(c.cur)":
 		return e(sh.Remove(c11Ids["c.cur"].pub))
 	case "Remove(h1)":
@@ -454,6 +462,12 @@ func c11Scenarios(thorough bool) []c11Case {
 			out = append(out, c11Case{NoUp: noUp, Locked: true, Ops: []string{"Close", o}})
 		}
 	}
+	// a client that reads right after its own write, against a reader on another connection
+	for _, noUp := range []bool{false, true} {
+		for _, pair := range [][]string{{"List", "Add(c2.cur);List"}, {"List", "Remove(c.cur);List"}, {"Signers", "Add(c2.cur);Signers"}, {"List", "Add(c2.cur);Signers"}, {"Signers", "Remove(c.cur);List"}} {
+			out = append(out, c11Case{NoUp: noUp, Ops: pair})
+		}
+	}
 	triples := [][]string{{"Signers", "Signers", "RemoveAll"}, {"Forward", "Extension", "List"}, {"Lock(p)", "Add(c2.cur)", "Sign(K1)"}, {"List", "Signers", "Sign(h1)"},
 		{"Extension", "Extension", "Forward"}, {"Remove(c.cur)", "List", "Signers"}, {"AddHardCert(h1free)", "RemoveAll", "Signers"}, {"Forward", "Forward", "Sign(K1)"},
 		{"Lock(p)", "Unlock(p)", "List"}, {"Signers", "Sign(h1)", "Remove(h1)"}, {"Extension", "Sign(K1)", "List"}, {"Add(c2.cur)", "Remove(c.cur)", "Signers"}}
@@ -465,8 +479,12 @@ func c11Scenarios(thorough bool) []c11Case {
 
 func checkC11(c *ev.Ctx) {
 	c11Setup()
-	c.Rule("engine E2 over real goroutines calling one real shimagent.Server (built by shimagent.New through the dial seam; sync of shimagent, yubiagent and x/crypto's agent client replaced by scheduler-visible primitives; every Write/Read on the upstream connection is a scheduling point): every unordered pair (incl. equal pairs) of {List, Signers, Sign(K1), Sign(h1), Add, Remove, RemoveAll, AddHardCert, Lock, Unlock, Extension, Forward, Close} on two threads x both upstream modes, Unlock racing with every operation from a locked start, Close racing with Extension / Forward / List / Close from a locked start, 12 three-thread scenarios, and 8 server-level scenarios (one yubiagent.ServeAgent thread per client connection on scheduler-visible pipes in front of one shared server/shim, preemption bound 2 and at most 3 departures from the canonical order); initial state with an expired certificate in the underlying agent AND one in memory (purging happens inside the operations) and an uncached YSSHCA certificate; two-thread scenarios: ALL interleavings (unbounded; the shim's big lock leaves at most ~130 complete schedules per pair, 6 952 in total); three-thread and server-level scenarios: preemption bound 2 (thorough 3) and at most 3 (4) departures from the canonical order. Oracles on every complete execution: all threads finish, connection-exclusion monitor, own-reply check (digest echo), brute-force linearizability against all n! sequential orders computed with the same real code. states = executions, transitions = scheduling events. Declared side passes (not deciding): the same bodies free-running under -race with 2..16 goroutines; one real-time run with an upstream that answers a raw request after 6.5 s while a second client sends its request 5.5 s into the wait (timers and goroutines started by the code under test are outside the scheduler). non-trivial = execution with at least one branch point; distinct by (scenario, schedule)")
+	c.Rule("engine E2 over real goroutines calling one real shimagent.Server (built by shimagent.New through the dial seam; sync of shimagent, yubiagent and x/crypto's agent client replaced by scheduler-visible primitives; every Write/Read on the upstream connection is a scheduling point): every unordered pair (incl. equal pairs) of {List, Signers, Sign(K1), Sign(h1), Add, Remove, RemoveAll, AddHardCert, Lock, Unlock, Extension, Forward, Close} on two threads x both upstream modes, Unlock racing with every operation from a locked start, Close racing with Extension / Forward / List / Close from a locked start, a client that reads right after its own write (Add;List, Remove;List, Add;Signers as one thread) against a reader on another connection, 12 three-thread scenarios, and 8 server-level scenarios (one yubiagent.ServeAgent thread per client connection on scheduler-visible pipes in front of one shared server/shim, preemption bound 2 and at most 3 departures from the canonical order); initial state with an expired certificate in the underlying agent AND one in memory (purging happens inside the operations) and an uncached YSSHCA certificate; two-thread scenarios: ALL interleavings (unbounded; the shim's big lock leaves at most ~130 complete schedules per pair, 6 952 in total); three-thread and server-level scenarios: preemption bound 2 (thorough 3) and at most 3 (4) departures from the canonical order. Oracles on every complete execution: all threads finish, connection-exclusion monitor, own-reply check (digest echo), brute-force linearizability against all n! sequential orders computed with the same real code. states = executions, transitions = scheduling events. Declared side passes (not deciding; the third also serves implementations whose waiting the scheduler cannot drive): a client that reads right after its own write against a reader on another connection, free-running with an embedder-supplied compare function of 2 ms per comparison (24 runs); the same bodies free-running under -race with 2..16 goroutines; one real-time run with an upstream that answers a raw request after 6.5 s while a second client sends its request 5.5 s into the wait (timers and goroutines started by the code under test are outside the scheduler). non-trivial = execution with at least one branch point; distinct by (scenario, schedule)")
 	c.Assume("scheduling points at synchronisation and connection operations suffice provided there is no data race; data races are looked for by the separate free-running -race pass", "2-3 threads with one operation each; 4-16 goroutines only in the race pass")
+	if c.ReplayCase != nil && strings.Contains(string(c.ReplayCase), "\"read_your_writes\"") {
+		c11ReadYourWrites(c) // (the whole side pass: 24 runs)
+		return
+	}
 	if c.ReplayCase != nil {
 		var sk c11SrvCase
 		json.Unmarshal(c.ReplayCase, &sk)
@@ -554,7 +572,75 @@ func checkC11(c *ev.Ctx) {
 	if !c.IsChild() {
 		racePass(c)
 		c11SlowUpstream(c)
+		c11ReadYourWrites(c)
 	}
+}
+
+// c11ReadYourWrites is a declared free-running side pass (real goroutines, real time): a client that reads right after its
+// own write against a reader on another connection, with an embedder-supplied compare function that takes 2 ms per
+// comparison (a legal configuration: whatever the shim does outside its lock then lasts tens of milliseconds). The result
+// vector must be one of the sequential outcomes. It also covers implementations whose waiting the scheduler cannot drive.
+func c11ReadYourWrites(c *ev.Ctx) {
+	vsync.Sequential.Store(false)
+	defer vsync.Sequential.Store(true)
+	slow := func(x, y ssh.PublicKey) bool {
+		time.Sleep(2 * time.Millisecond)
+		return bytes.Compare(x.Marshal(), y.Marshal()) < 0
+	}
+	n := 0
+	for _, noUp := range []bool{false, true} {
+		for _, pair := range [][]string{{"List", "Add(c2.cur);List"}, {"List", "Remove(c.cur);List"}, {"Signers", "Add(c2.cur);Signers"}, {"List", "Add(c2.cur);Signers"}} {
+			k := c11Case{NoUp: noUp, Ops: pair}
+			c11Comp = slow
+			seq := c11Sequential(k)
+			for rep := 0; rep < 3; rep++ {
+				c.Eval()
+				n++
+				w := newC11World(k.NoUp, false)
+				res := make([]string, 2)
+				done := make(chan int, 2)
+				for i := range pair {
+					i := i
+					go func() {
+						if i == 1 {
+							time.Sleep(time.Duration(3+4*rep) * time.Millisecond) // the writer arrives while the reader is at work
+						}
+						if p := ev.Guard(func() { res[i] = c11Op(w, pair[i], i) }); p != "" {
+							res[i] = "PANIC " + p
+						}
+						done <- i
+					}()
+				}
+				stuck := false
+				for i := 0; i < 2 && !stuck; i++ {
+					select {
+					case <-done:
+					case <-time.After(120 * time.Second):
+						stuck = true
+					}
+				}
+				if stuck {
+					c.Violation("C11:operations-never-complete:"+strings.Join(sortedCopy(pair), "+"), "free-running pass with a slow compare function: an operation did not return within 120 s", map[string]any{"read_your_writes": true, "case": k})
+					c11Comp = nil
+					return
+				}
+				got := strings.Join(res, " | ") + " || " + w.final()
+				w.close()
+				if !seq[got] {
+					var exp []string
+					for o := range seq {
+						exp = append(exp, o)
+					}
+					sort.Strings(exp)
+					c.Violation("C11:not-linearizable:"+strings.Join(sortedCopy(pair), "+"), fmt.Sprintf("free-running pass with a slow compare function (2 ms per comparison): results\n    %s\n  equal no sequential order; sequential outcomes:\n    %s", got, strings.Join(exp, "\n    ")), map[string]any{"read_your_writes": true, "case": k})
+					c11Comp = nil
+					return
+				}
+			}
+			c11Comp = nil
+		}
+	}
+	c.Set("read_your_writes_free_running_runs", n)
 }
 
 // ---- declared side pass: free-running -race ----
